@@ -243,8 +243,21 @@ def run(ck, ctx):
                 m_ = n.args[1]
                 if any(x.op == "Compare" for x in walk([m_])):
                     msk.setdefault(g.vn(m_), m_)
-        ck.ob("R20.3", "all table parameters are selected with one and the same frequency cut", len(msk) == 1, r2.value,
-              fnm, f"{len(msk)} distinct cut(s)")
+        # an index taken with argmax / argmin of a boolean array is "the first True" only if there is one:
+        # for an all-False array it is 0, which silently selects the wrong (often empty) range
+        for n in walk([r2.value]):
+            if is_ext_call(n, "numpy.argmax", "numpy.argmin") and len(n.args) >= 2 and \
+                    n.fn is not None and n.fn.qualname.startswith("RadioEFieldParams."):
+                a0 = n.args[1]
+                if a0.op in ("Compare", "BoolOp") or (a0.op == "BinOp" and a0.attr in ("BitAnd", "BitOr", "BitXor")) or \
+                        (a0.op == "UnaryOp" and a0.attr in ("Invert", "Not")):
+                    ck.ob("R20.3", f"no bin range is taken from argmax/argmin of a boolean array [{g.show(n, 2)}]", False,
+                          n, fnm, "for a band that reaches the end of the table no element is True and the index is 0: "
+                          "the selected range is empty or wrong, so the field bins no longer match the SNR's grid",
+                          construct=f"{fnm}: argmax of a boolean array as a bin index")
+        ck.ob("R20.3", "all table parameters are selected with one and the same frequency cut", len(msk) == 1 or
+              (None if not msk else False), r2.value, fnm, f"{len(msk)} distinct cut(s)" + ("" if msk else
+              ": the bin selection is not a boolean cut on the centre column (not decided)"))
         if len(msk) != 1:
             return
         cut = next(iter(msk.values()))
@@ -253,7 +266,7 @@ def run(ck, ctx):
         for key in pr.atoms_of(f_cut):
             _kind, l, r_ = pr.atoms[key]
             for x in (l, r_):
-                if x.op == "Subscript" and x.args[1].op == "Tuple" and len(x.args[1].args) == 3:
+                if x is not None and x.op == "Subscript" and x.args[1].op == "Tuple" and len(x.args[1].args) == 3:
                     fcs.setdefault(g.vn(x), x)
         okfc = len(fcs) == 1
         fc = next(iter(fcs.values())) if okfc else None
